@@ -138,7 +138,7 @@ class Monitor:
                 missing.append('abort_reason not recorded')
             if after[13] != 0 or after[14] != 0:
                 missing.append('tasks not cancelled')
-            if dl and before[11] and (after[11] or after[12]):
+            if dl and before[11] and (after[11] or (after[12] and not ctx['cfg'].get('remove_fails'))):
                 missing.append('local file not removed')
         if op == 'fail' and after[1] != (reason if reason else -1):
             missing.append('fail_reason not recorded')
@@ -452,6 +452,18 @@ def run(run: Run):
                         for call in call_variants(op):
                             cases.append(run_sequential(tmp, state, direction, cfg, [call], mon))
                             run.case({'s': state, 'd': direction, 'cfg': ci, 'call': call}, kind='single-call')
+        # error / clean-up paths: the cancelled tasks die with an error (compared with the model: same outcome as a clean
+        # finish), the file system refuses to remove the file (monitors only: the operation must still go through)
+        for state in L.STATES:
+            for direction in L.DIRS:
+                for op in ('abort', 'pause'):
+                    call = one_call(op)
+                    cases.append(run_sequential(tmp, state, direction, dict(RICH, task_error=True), [call], mon))
+                    run.case({'s': state, 'd': direction, 'call': call, 'task_error': True}, kind='single-call-task-error')
+                    if op == 'abort':
+                        run_sequential(tmp, state, direction, dict(RICH, remove_fails=True), [call], mon)
+                        run_sequential(tmp, state, direction, dict(RICH, remove_fails=True), [(op, 1, False)], mon, manager=True)
+                        run.case({'s': state, 'd': direction, 'call': call, 'remove_fails': True}, kind='single-call-remove-fails')
         run.cov['exhaustive_part'] = 'state x direction x operation x argument x %d configurations' % len(CFGS)
         _t = _mark(run, 'single', _t)
         # manager level: abort/queue/pause raise InvalidStateTransition iff the state method returns False
